@@ -131,6 +131,9 @@ var typeByID = map[int]types.Type{}
 func typeID(t types.Type) int {
 	k := types.TypeString(t, nil)
 	if id, ok := typeIDs[k]; ok {
+		if typeByID[id] == nil {
+			typeByID[id] = t // the name was registered first by a contract (dynIs)
+		}
 		return id
 	}
 	id := len(typeIDs) + 1
